@@ -329,7 +329,7 @@ func sideCtx(e env, s Side) (context.Context, context.CancelFunc) {
 }
 
 func fromCtx(cctx context.Context) (r sideResult) {
-	r.hasCtx = true
+	r.hasCtx, r.cctx = true, cctx
 	r.peerId, _ = peer.CtxPeerId(cctx)
 	r.identity, _ = peer.CtxIdentity(cctx)
 	r.version, _ = peer.CtxProtoVersion(cctx)
@@ -397,6 +397,7 @@ func runHonest(e env, outgoing bool, conn *end, st Step, sv *service, v view, do
 		}
 	}
 	r.returned, r.ok, r.err = true, err == nil, err
+	r.idAtRet = append([]byte(nil), r.identity...)
 	r.elapsed = int64(time.Since(start))
 	done <- r
 }
@@ -695,6 +696,12 @@ func runMode(c Case, o opts) (out vstat.Outcome, err error) {
 		cls["metamorphic-prefix-checked"] = true
 	}
 
+	// the identity attached to a connection stays the one its signature proved: re-read every
+	// successful connection's identity now, after all later handshakes of the case
+	if rerr := reReadIdentities(c, rts, results, cls); rerr != nil {
+		return out, rerr
+	}
+
 	if c.Concurrent && len(rts) > 1 {
 		cls["concurrent"] = true
 	}
@@ -706,6 +713,96 @@ func runMode(c Case, o opts) (out vstat.Outcome, err error) {
 	}
 	out.Sig = vstat.HashJSON(c)
 	return out, nil
+}
+
+// reReadIdentities compares, at the end of the case, the identity each verified connection
+// carries (the returned Result.Identity and peer.CtxIdentity / CtxPubKey of the returned
+// context) with the account key that signed for it — taken from the key (honest peer) or
+// from a fresh decode of the received bytes (adversary), never from the result.
+func reReadIdentities(c Case, rts []stepRT, results []stepResult, cls map[string]bool) error {
+	type seen struct {
+		step int
+		id   string
+	}
+	byVerifier := map[any][]seen{}
+	for i, rt := range rts {
+		st := rt.st
+		if st.Proto {
+			continue
+		}
+		for _, x := range []struct {
+			who        string
+			honest     bool
+			peerHonest bool
+			peerAcc    int
+			r          sideResult
+			delivered  []byte
+			v          view
+			verifier   any
+		}{
+			{"outgoing", len(st.O.Script) == 0, len(st.I.Script) == 0, st.I.Acc, results[i].o, results[i].delivered[1], rt.vo, verifierOf(rt.so, true)},
+			{"incoming", len(st.I.Script) == 0, len(st.O.Script) == 0, st.O.Acc, results[i].i, results[i].delivered[0], rt.vi, verifierOf(rt.si, false)},
+		} {
+			if !x.honest || !x.r.ok || !x.v.verify {
+				continue
+			}
+			p, jerr := justify(x.delivered, x.v)
+			if jerr != nil {
+				continue // reported by checkStep
+			}
+			want := p.identity
+			if x.peerHonest {
+				want = accounts[x.peerAcc%nAccounts].identity // straight from the key
+			}
+			later := len(rts) - 1 - i
+			if c.Concurrent {
+				later = len(rts) - 1
+			}
+			if string(x.r.identity) != string(want) {
+				return fmt.Errorf("connection %d of %d: the identity attached by the %s side was %x when the handshake returned and reads %x after %d other handshake(s) of the case; the account that signed is %x",
+					i+1, len(rts), x.who, x.r.idAtRet, x.r.identity, later, want)
+			}
+			if x.r.cctx != nil {
+				got, _ := peer.CtxIdentity(x.r.cctx)
+				if string(got) != string(want) {
+					return fmt.Errorf("connection %d of %d: peer.CtxIdentity of the %s side's context reads %x after %d other handshake(s); the account that signed is %x", i+1, len(rts), x.who, got, later, want)
+				}
+				if pk, err := peer.CtxPubKey(x.r.cctx); err != nil || string(mustMarshal(pk)) != string(want) {
+					return fmt.Errorf("connection %d of %d: peer.CtxPubKey of the %s side's context no longer yields the account that signed (%v)", i+1, len(rts), x.who, err)
+				}
+			}
+			byVerifier[x.verifier] = append(byVerifier[x.verifier], seen{i, string(want)})
+		}
+	}
+	for _, l := range byVerifier {
+		for _, a := range l {
+			for _, b := range l {
+				if a.id != b.id && (a.step < b.step || c.Concurrent && a.step != b.step) {
+					cls["identity-re-read-after-later-handshake"] = true
+					if c.Concurrent {
+						cls["identity-re-read-after-concurrent-handshake"] = true
+					}
+				}
+			}
+		}
+	}
+	return nil
+}
+
+func mustMarshal(k interface{ Marshall() ([]byte, error) }) []byte {
+	b, _ := k.Marshall()
+	return b
+}
+
+// verifierOf names the credential checker instance that verified for a side.
+func verifierOf(sv *service, outgoing bool) any {
+	if sv == nil {
+		return nil
+	}
+	if outgoing {
+		return sv.verify
+	}
+	return sv.inbound
 }
 
 func descr(r sideResult) string {
@@ -1182,7 +1279,7 @@ func genProtoScriptStep(rt *rapid.T) Step {
 func genCase(rt *rapid.T) Case {
 	var c Case
 	c.NodeMask = rapid.SampledFrom([]int{0, 0, 1, 2, 3, 5, 15}).Draw(rt, "nodeMask")
-	shape := rapid.IntRange(0, 9).Draw(rt, "shape")
+	shape := rapid.IntRange(0, 10).Draw(rt, "shape")
 	nPrefix := rapid.IntRange(0, 3).Draw(rt, "nPrefix")
 	for i := 0; i < nPrefix; i++ {
 		if rapid.IntRange(0, 4).Draw(rt, "prefixProto") == 0 {
@@ -1257,6 +1354,24 @@ func genCase(rt *rapid.T) Case {
 			nxt.O.CloseEnd = rapid.Bool().Draw(rt, "closeEnd")
 		}
 		c.Steps = append(c.Steps, nxt)
+	case 10: // one verifier, several accounts: earlier identities must survive later handshakes
+		base := genHonest(rt, true)
+		base.O.Sees, base.I.Sees = -1, -1
+		base.I.ReqAuth, base.O.AcctCheck = true, true
+		shareInbound := rapid.Bool().Draw(rt, "shareInbound")
+		n := rapid.IntRange(2, 4).Draw(rt, "nPeers")
+		first := rapid.IntRange(0, nAccounts-1).Draw(rt, "firstPeer")
+		for k := 0; k < n; k++ {
+			st := base
+			if shareInbound {
+				st.O.Acc = (first + k) % nAccounts // different dialers, one listener
+			} else {
+				st.I.Acc = (first + k) % nAccounts // one dialer, different listeners
+			}
+			st.Direct = rapid.IntRange(0, 3).Draw(rt, "direct") == 0
+			st.Sync = rapid.Bool().Draw(rt, "sync")
+			c.Steps = append(c.Steps, st)
+		}
 	case 9: // replay of recorded credentials
 		pre := genHonest(rt, true)
 		pre.I.ReqAuth, pre.O.AcctCheck = true, true
@@ -1577,6 +1692,30 @@ func enumerate(yield func(Case) bool) {
 			}
 		}
 	}
+	// (g) one verifier checks 2..3 different accounts, as listener and as dialer, one after the
+	// other and at once: the earlier connections must still carry their own identity at the end
+	for shareInbound := 0; shareInbound < 2; shareInbound++ {
+		for n := 2; n <= 3; n++ {
+			for direct := 0; direct < 2; direct++ {
+				for conc := 0; conc < 2; conc++ {
+					var steps []Step
+					for k := 0; k < n; k++ {
+						st := baseStep(13, true)
+						st.Direct = direct == 1
+						if shareInbound == 1 {
+							st.O.Acc = []int{0, 2, 3}[k]
+						} else {
+							st.I.Acc = []int{1, 2, 3}[k]
+						}
+						steps = append(steps, st)
+					}
+					if !emit(Case{Steps: steps, Concurrent: conc == 1}) {
+						return
+					}
+				}
+			}
+		}
+	}
 }
 
 // padFor finds the padding that makes the body of a credentials frame exactly target bytes.
@@ -1662,7 +1801,7 @@ func TestReplay(t *testing.T) {
 	t.Run("TestExhaustive", func(t *testing.T) { single(t); vstat.Replay(t, prop, "TestExhaustive", run) })
 	t.Run("TestStress", func(t *testing.T) { outerT = t; vstat.Replay(t, prop, "TestStress", runStress) })
 	t.Run("FuzzIncomingFrames", func(t *testing.T) { single(t); vstat.Replay(t, prop, "FuzzIncomingFrames", runFuzz) })
-	for _, n := range []string{"TestRegPoolLeak", "TestRegPoolLeakFalseReject", "TestRegRelay", "TestRegReplay", "TestRegFinalAckLost"} {
+	for _, n := range []string{"TestRegPoolLeak", "TestRegPoolLeakFalseReject", "TestRegIdentityKept", "TestRegRelay", "TestRegReplay", "TestRegFinalAckLost"} {
 		t.Run(n, func(t *testing.T) { single(t); vstat.Replay(t, prop, n, run) })
 	}
 }
@@ -1699,6 +1838,18 @@ func TestRegReplay(t *testing.T) {
 	b.I.Acc, b.O.Script = 3, []Frame{{Kind: fRecorded, Step: 0, Dir: 0, Idx: 0}, {Kind: fAck}}
 	c.O.Script = []Frame{{Kind: fRecorded, Step: 0, Dir: 0, Idx: 0}, {Kind: fAck}} // same endpoints
 	vstat.One(t, prop, Case{Steps: []Step{pre, a, b, c}}, run)
+}
+
+// One listener verifies three different accounts: every connection keeps its own identity.
+func TestRegIdentityKept(t *testing.T) {
+	single(t)
+	var steps []Step
+	for _, acc := range []int{0, 2, 3} {
+		st := baseStep(13, true)
+		st.O.Acc = acc
+		steps = append(steps, st)
+	}
+	vstat.One(t, prop, Case{Steps: steps}, run)
 }
 
 // The final ack is lost: the incoming side has completed, the outgoing side must fail by its deadline.
